@@ -90,6 +90,8 @@ pub struct Node {
     pub sl_next: u64,
     pub written: Vec<usize>,
     pub send_tainted: bool,
+    /// some rekey call was made on this endpoint
+    pub rekeyed: bool,
     pub had_error: bool,
     pub build_result: String,
     /// current psk view of the node (index -> key), mirrors what snow was told
@@ -242,7 +244,7 @@ pub fn build_snow(
 ) -> Result<Result<HandshakeState, Error>, String> {
     guarded(|| {
         let params: snow::params::NoiseParams = cfg.name.parse()?;
-        let resolver = SimResolver::new(cfg.backend, rng, record, cfg.deny).with_evil_static_pub(cfg.evil_static_pub);
+        let resolver = SimResolver::new(cfg.backend, rng, record, cfg.deny).with_evil_static_pub(cfg.evil_static_pub).with_deny_at(cfg.deny_at);
         let mut b = Builder::with_resolver(params, Box::new(resolver));
         let mut keys: Vec<(u8, [u8; 32])> = vec![];
         for p in &cfg.psks {
@@ -414,7 +416,8 @@ impl World {
                     None => "unparsed-name",
                 };
                 let site = format!("build/{}/{}", dh_by_name.map_or("?", |d| d.name()), irregular);
-                self.flag(&["C10"], "panic", &site, &format!("build panicked: {p}"));
+                // a panic is neither a successful build nor a descriptive error
+                self.flag(&["C10", "C12"], "panic", &site, &format!("build panicked: {p}"));
                 self.stats.aborted_by_panic += 1;
                 (St::Gone("build-panic"), "panic".to_string())
             },
@@ -426,7 +429,10 @@ impl World {
         let padded_psk = nc.name.contains("psk0") && nc.name.split('_').nth(1).map_or(false, |h| {
             h.split('+').any(|m| m.rsplit("psk").next().map_or(false, |d| d.len() > 1 && d.starts_with('0')))
         });
-        let dont_care_build = (padded_psk && build_result != "ok") || nc.deny == Some(crate::seam::Prim::Rng);
+        // a positional denial (only the k-th request refused) pins no outcome either: how many
+        // objects of a kind the builder asks for is not part of any property - it must not panic,
+        // and whatever it builds must work
+        let dont_care_build = (padded_psk && build_result != "ok") || nc.deny == Some(crate::seam::Prim::Rng) || (nc.deny.is_some() && nc.deny_at > 0);
         if (keys_regular || proto.is_none()) && !dont_care_build {
             let got_ok = build_result == "ok";
             if build_result != "panic" && got_ok != expect_ok {
@@ -474,6 +480,7 @@ impl World {
             sl_next: 0,
             written: vec![],
             send_tainted: false,
+            rekeyed: false,
             had_error: false,
             build_result,
             ok_writes: 0,
@@ -943,7 +950,7 @@ impl World {
         }
         let r = guarded(|| -> Result<(snow::Keypair, snow::Keypair), Error> {
             let params: snow::params::NoiseParams = nc.name.parse()?;
-            let resolver = SimResolver::new(nc.backend, rng.clone(), None, None);
+            let resolver = SimResolver::new(nc.backend, rng.clone(), None, if nc.deny == Some(crate::seam::Prim::Rng) { nc.deny } else { None });
             let b = Builder::with_resolver(params, Box::new(resolver));
             let k1 = b.generate_keypair()?;
             let k2 = b.generate_keypair()?;
@@ -957,7 +964,10 @@ impl World {
                 self.stats.aborted_by_panic += 1;
             },
             Ok(Err(e)) => {
-                self.flag(&["C02"], "keygen-fails", &site, &format!("{e:?}"));
+                // without a random source there is nothing to generate from
+                if nc.deny != Some(crate::seam::Prim::Rng) {
+                    self.flag(&["C02"], "keygen-fails", &site, &format!("{e:?}"));
+                }
             },
             Ok(Ok((k1, k2))) => {
                 self.stats.probe("keypairs-generated-by-snow");
@@ -994,6 +1004,7 @@ impl World {
                 sl_next: 0,
                 written: vec![],
                 send_tainted: false,
+            rekeyed: false,
                 had_error: false,
                 build_result: String::new(),
                 ok_writes: 0,
@@ -1484,7 +1495,11 @@ impl World {
                     self.flag(&["C07", "C09"], "nonces-changed-by-failed-write", &site, &format!("{e:?} {before:?} -> {after:?}"));
                 }
                 if whys.is_empty() {
-                    self.flag(&["C02", "C14", "C16", "C07"], "write-fails-but-must-succeed", &site, &format!("{e:?} nonce={n_used} buf={buflen}"));
+                    let mut props = vec!["C02", "C14", "C16", "C07"];
+                    if node.rekeyed {
+                        props.push("C15");
+                    }
+                    self.flag(&props, "write-fails-but-must-succeed", &site, &format!("{e:?} nonce={n_used} buf={buflen}"));
                 } else {
                     // "produces no message": the buffer must not hold the message that encrypting
                     // under the reserved nonce would have produced (what else a failed call leaves
@@ -2267,7 +2282,17 @@ impl World {
         self.put(i, node);
     }
 
+    /// Manual rekey values: ids 0-3 pseudo-random per (session, direction); 4 all zero; 5 all
+    /// 0xFF; 6 one key for both directions; 7 the other direction's key 0 (any 32 bytes are a
+    /// valid key).
     pub fn manual_key(session: usize, dir: usize, id: u8) -> [u8; 32] {
+        match id {
+            4 => return [0u8; 32],
+            5 => return [0xFF; 32],
+            6 => return Self::manual_key(session, 0, 3),
+            7 => return Self::manual_key(session, 1 - dir.min(1), 0),
+            _ => {},
+        }
         let v = seeded_bytes(mix(mix(session as u64, dir as u64), 0x4E00 + id as u64), 32);
         let mut k = [0u8; 32];
         k.copy_from_slice(&v);
@@ -2279,6 +2304,7 @@ impl World {
             return;
         }
         let mut node = self.take(i);
+        node.rekeyed = true;
         let session = i / 2;
         self.begin_call(&node, 0);
         let before = match &node.st {
@@ -2338,6 +2364,13 @@ impl World {
                             trm.keys[0] = Self::manual_key(session, 0, id);
                             trm.keys[1] = Self::manual_key(session, 1, id);
                         },
+                    }
+                }
+                // key values shared between directions or sessions (ids 4-7): any (key, nonce)
+                // coincidence from here on is the caller's doing, not snow's
+                if let RekeyKind::ManualI(id) | RekeyKind::ManualR(id) | RekeyKind::ManualBoth(id) = which {
+                    if id >= 4 {
+                        node.send_tainted = true;
                     }
                 }
                 let after = match &node.st {
